@@ -199,6 +199,8 @@ class EnvWorld(CompWorld):
                 self._pcu(k, label[1])
             elif k == 'past':
                 self._past()
+            elif k == 'run' and label[1] < 0:
+                self._negative_run(label[1])
             elif k == 'run':
                 self._open_run(label[1])
                 if not self.in_real_run:
@@ -221,6 +223,29 @@ class EnvWorld(CompWorld):
         self.env.schedule_event(t, asset, EnvAction(self, r), prio, 'harness')
         self.facts.append('sched:' + kind)
 
+    def _negative_run(self, d):
+        '''A run that would end before now: its end cannot be scheduled (before the current time) -> ValueError.'''
+        env = self.env
+        t0, q0 = env.now, [ev_key(e) for e in env._events]
+        try:
+            if self.system is not None:
+                from simprocesd.model import System
+                saved = System._instance
+                System._instance = self.system
+                try:
+                    self.system.simulate(d, print_summary=False)
+                finally:
+                    System._instance = saved
+            else:
+                env.run(d)
+        except ValueError:
+            if env.now != t0 or [ev_key(e) for e in env._events] != q0:
+                raise Violation('past_changed_state', f'rejected run({d}) changed the clock or the queue')
+            env._terminated = True          # the rejected run never started
+            self.facts.append('negative_run_rejected')
+            return
+        raise Violation('past_accepted', f'run({d}) accepted at now={t0}: clock is now {env.now}')
+
     def _past(self):
         before = canon.digest(self.env)
         try:
@@ -237,7 +262,8 @@ class EnvWorld(CompWorld):
         env, ref = self.env, self.ref
         n = getattr(ref, k)(a)
         before = canon.digest(env) if n == 0 else None
-        getattr(env, k + '_matching_events')(asset_id=a)
+        # the id handed to the library is EQUAL to the one used when scheduling, never the same int object
+        getattr(env, k + '_matching_events')(asset_id=int(str(a)))
         if n == 0:
             if canon.digest(env) != before:
                 raise Violation('redundant_call', f'{k}({a}) with nothing to {k} changed the environment')
@@ -395,7 +421,7 @@ class EnvWorld(CompWorld):
                 label = tuple(label)
                 n[0] += 1
                 try:
-                    if label[0] == 'run':
+                    if label[0] == 'run' and label[1] >= 0:
                         w.in_real_run = True
                         w.apply(label)              # reference side + bookkeeping only
                         w.env.step = shim
